@@ -333,19 +333,24 @@ def run(prop, tier):
             except Exception as ex:
                 V.violation("C16 load_calibration raised %s (%s)" % (type(ex).__name__, variant), dict(model=name, variant=variant, error=str(ex)[:300]))
                 continue
-            expect = sc.dcp(ps)
-            known = {(r_["par"], r_["pop"] if isinstance(r_["pop"], str) else None) for _, r_ in d2.iterrows() if r_["par"] != "no_such_par"}
-            qd, td = parset_content(q), parset_content(tgt)
-            e = parset_content(ps)
-            rows = {r_["par"] for _, r_ in d2.iterrows()}
-            for pname in e:
-                if pname in rows:
-                    e[pname]["meta"], e[pname]["y"] = qd[pname]["meta"], qd[pname]["y"]
-            if variant == "entries missing":
-                # only factors present in the file change; the rest keep their existing values: compare per parameter that is entirely present or entirely absent
-                present = [p for p in e if p in rows]
-                e = {p: e[p] for p in e}
-            records.append(dict(id=rid, kind="same", a=dg({k: (v["meta"], v["y"]) for k, v in e.items() if variant != "entries missing" or k not in rows or all(True for _ in [0])}), b=dg({k: (v["meta"], v["y"]) for k, v in td.items()})))
+            # expected: every entry of the file that names an existing (parameter[, from-population]) takes the file's factors (= those of q),
+            # every other parameter keeps the factors it had; compared position by position over all_pars() (plain parameters, transfers, interactions)
+            def keys_of(pset):
+                k = {}
+                for n_, p_ in pset.pars.items():
+                    k[id(p_)] = (n_, None)
+                for coll in (pset.transfers, pset.interactions):
+                    for tn_, d_ in coll.items():
+                        for fp_, p_ in d_.items():
+                            k[id(p_)] = (tn_, fp_)
+                return k
+
+            present = {(r_["par"], r_["pop"] if isinstance(r_["pop"], str) else None) for _, r_ in d2.iterrows()}
+            fac = lambda p_: (num(p_.meta_y_factor), {k_: num(v_) for k_, v_ in p_.y_factor.items()})
+            kq = keys_of(ps)
+            want = [fac(pq) if kq[id(p0)] in present else fac(p0) for p0, pq in zip(ps.all_pars(), q.all_pars())]
+            got = [fac(pt) for pt in tgt.all_pars()]
+            records.append(dict(id=rid, kind="same", a=dg(want), b=dg(got)))
             index[rid] = dict(label=lab("load_calibration: %s" % variant))
             rid += 1
         # binary project and result files
@@ -366,6 +371,24 @@ def run(prop, tier):
         records.append(dict(id=rid, kind="same", a=DG.result_digest(base), b=DG.result_digest(rb)))
         index[rid] = dict(label=lab("binary result save / load"))
         rid += 1
+    # ================= reconciliation is one of the editing operations: the reconciled program set simulates like the program set rebuilt from
+    # its own exported program book (its visible content - baselines, outcomes, unit costs - is all there is)
+    for name in (["udt"] + (["tb_simple", "hiv"] if thorough else [])):
+        P = at.demo(name, do_run=False)
+        ps, pg = P.parsets[0], P.progsets[0]
+        year = float(P.settings.sim_start + 2)
+        lab = lambda what: dict(model=name, what=what)
+        try:
+            np.random.seed(C.seed())
+            pr = at.reconcile(P, ps, pg, year, max_time=4, baseline_bounds=0.3, outcome_bounds=0.3, unit_cost_bounds=0.2)[0]
+            pr2 = at.ProgramSet.from_spreadsheet(pr.to_spreadsheet(), framework=P.framework, data=P.data)
+            ins_r = at.ProgramInstructions(start_year=year)
+            records.append(dict(id=rid, kind="same", a=dg(progset_content(pr)), b=dg(progset_content(pr2))))
+            index[rid] = dict(label=lab("reconciled program set vs rebuilt from its own export (visible content)"))
+            rid += 1
+            rid = close_records(records, index, rid, lab("simulation with the reconciled program set vs the one rebuilt from its export"), P.run_sim(ps, pr, ins_r, store_results=False), P.run_sim(ps, pr2, ins_r, store_results=False))
+        except Exception as ex:
+            V.violation("C16 reconcile / export / import raised %s" % type(ex).__name__, dict(model=name, error=str(ex)[:300]))
     # ================= framework round trips of library frameworks with structure the three above lack: two parameters in one
     # transition cell (combined), durations / timed compartments (sir), junctions and several population types (the rest)
     for name in (["combined", "sir"] + (["usdt", "hypertension", "diabetes", "cervicalcancer", "tb"] if thorough else [])):
